@@ -77,6 +77,8 @@ class C01System(BuilderSystem):
             ops.append(["probe", ["towards"], {"z": c, "F": 5000}])
             ops.append(["set_axis", [], {"x": 50}])
         ops.append(["move", [[b, None, c]], {}])
+        ops.append(["!fault", ["move", [], {"x": c, "y": b}]])
+        ops.append(["!fault", ["set_distance_mode", ["relative"]]])
         # free text on a motion call stays inside its comment (nothing of it moves the machine)
         ops.append(["move", [], {"y": c, "comment": "clamps\r\nG0 Z25 is the safe height\rG0 X-40 parks the head\nG92 X0"}])
         ops.append(["rapid", [], {"X": ["np64", b], "y": 2}])          # upper-case keyword, numpy scalar, int
